@@ -84,12 +84,12 @@ int main (int argc, char **argv)
 {	int f, c, mode, p ;
 	vh_init (argc, argv, "c11_header_update", "C11") ;
 	vh_enum_formats () ;
-	for (f = 0 ; f < vh_nfmts ; f++) for (c = 1 ; c <= 2 ; c++)
+	for (f = 0 ; f < vh_nfmts ; f++) for (c = 1 ; c <= 3 ; c++)
 	{	int format = vh_fmts [f].format, maj = vh_fmts [f].major ;
 		if (maj == SF_FORMAT_SD2 || maj == SF_FORMAT_RAW) continue ;		/* RAW has no header; SD2 needs a path (resource fork) */
 		if (is_alac (format)) continue ;									/* assembled at close: outside the guarantee */
 		if (!vh_accepts (format, c, 8000)) continue ;
-		for (mode = 0 ; mode < 4 ; mode++) for (p = 0 ; p < (vh_thorough ? 12 : 4) ; p++)
+		for (mode = 0 ; mode < 4 ; mode++) for (p = 0 ; p < (vh_thorough ? 16 : 6) ; p++)
 		{	int t = (p + mode + (int) vh_seed0) % T_N ;
 			if (mode >= 2 && !vh_sample_granular (format)) continue ;
 			if (mode >= 2 && p > 1 && !vh_thorough) continue ;
